@@ -11,6 +11,15 @@ import traceback
 
 def main():
     prop = sys.argv[1]
+    try:
+        # a runaway allocation inside a native library (the Triangle mesher has done that on degenerate outlines) ends THIS worker
+        # ("worker died" -> the case is retried alone / counted inconclusive) instead of the machine's OOM killer choosing a victim
+        import resource
+
+        lim = int(os.environ.get("VT_WORKER_AS_LIMIT_GB", "40")) << 30
+        resource.setrlimit(resource.RLIMIT_AS, (lim, lim))
+    except Exception:
+        pass
     proto = os.fdopen(os.dup(1), "w")
     os.dup2(2, 1)
     sys.stdout = sys.stderr
